@@ -23,6 +23,49 @@ class C08(PipelineProp):
         )
 
     def gen_case(self, rng):
+        c = self.gen_case0(rng)
+        if rng.random() < 0.06:
+            # every scaffold shorter than a texel: PretextView's AGP has header lines and no scaffold line at all
+            total = max(P.sc_len(sc) for sc in c["input"]["scaffolds"])
+            c = {**c, "gen": "null/empty-map", "pretext": {"bpt": f"{total + rng.choice([1, 50])}.000000", "scaffolds": []},
+                 "painted": False}
+        if rng.random() < 0.12 or c["gen"] == "null/empty-map":
+            c["real_files"] = True      # ... through the command itself, on real files
+        return c
+
+    def run_impl(self, case):
+        obs = super().run_impl(case)
+        if not case.get("real_files"):
+            return obs
+        import io
+        import shutil
+
+        from tola.assembly.format import format_agp
+        from tola.assembly.parser import parse_agp
+
+        from .. import asm as A
+        from .. import cli_util as C
+        from .. import core
+
+        d = core.BUILD / self.pid / "realfiles"
+        shutil.rmtree(d, ignore_errors=True)
+        (d / "out").mkdir(parents=True)
+        with (d / "in.agp").open("w") as fh:
+            format_agp(A.assembly_to_obj(case["input"], "input"), fh)
+        ptx = case["pretext"]
+        with (d / "map.agp").open("w") as fh:
+            format_agp(A.assembly_to_obj({"header": [f"HiC MAP RESOLUTION: {ptx['bpt']} bp/texel"], "scaffolds": ptx["scaffolds"]}, "p"), fh)
+        r = C.run_cli(["-a", d / "in.agp", "-p", d / "map.agp", "-o", d / "out" / "x.agp", "--no-write-log"])
+        got = None
+        f = d / "out" / "x.1.primary.curated.agp"
+        if f.exists():
+            got = A.obj_to_assembly(parse_agp(f.open(), "x"))["scaffolds"]
+        obs["real_files"] = {"exit": r.exit_code, "exc": r.exception, "primary": got,
+                             "others": sorted(p_.name for p_ in (d / "out").iterdir() if p_.name.endswith(".curated.agp") and "primary" not in p_.name)}
+        shutil.rmtree(d, ignore_errors=True)
+        return obs
+
+    def gen_case0(self, rng):
         inp = P.gen_input(rng, style=rng.choice(["tpf", "fasta"]), double_gaps=rng.choice([0.0, 0.0, 0.3]))
         if rng.random() < 0.15:
             # a short scaffold whose two contigs are separated by two gap rows: often shorter than a texel
@@ -94,6 +137,14 @@ class C08(PipelineProp):
     def oracle(self, case, obs):
         if "painted" not in case:
             return None
+        rf = obs.get("real_files") if isinstance(obs, dict) else None
+        if rf is not None and "err" not in obs:
+            if rf["exit"] != 0 or rf["exc"]:
+                return f"pretext-to-asm on the same null map given as files ended with exit status {rf['exit']} ({rf['exc']})"
+            want = [{"name": s_["name"], "rows": s_["rows"]} for s_ in obs["asms"][0]["scaffolds"]] if obs["asms"] else []
+            strip = lambda scs: [{"name": s_["name"], "rows": [r if r[0] == "G" else r[:5] + [[t for t in r[5]]] for r in s_["rows"]]} for s_ in (scs or [])]
+            if strip(rf["primary"]) != strip(want) or rf["others"]:
+                return f"the primary AGP written by pretext-to-asm differs from the remapped assembly (others: {rf['others']})"
         if "err" in obs:
             return f"remapping a null map failed: {obs['err']}: {obs.get('msg', '')[:120]}"
         if [a["key"] for a in obs["asms"]] != [None]:
